@@ -241,6 +241,20 @@ def run(prog, chk):
     if rewind_rule(prog, r11) < 1:
         raise Broken("no rewind of next_char to text_start found outside the refill functions")
 
+    r14 = chk.rule("R14-partial-packet-recovery-starts-at-the-missing-column", "between the report of CIF_PARTIAL_PACKET and the first "
+                   "use of the column variable as an index, that variable is not advanced: the documented recovery fills every "
+                   "column from the first one without a value", primary=False, floor=1)
+    if partial_packet_recovery(prog, r14) < 1:
+        raise Broken("no CIF_PARTIAL_PACKET report found")
+
+    r13 = chk.rule("R13-compacted-array-not-read-by-count", "an array a production fills only with the elements that pass a test "
+                   "(the loop's names without the refused duplicates) while a count advances for every element is not "
+                   "subscripted, in the callee that receives both, by an index run against that count: the recovery that fills a "
+                   "short packet with unknown values must decide per column, not per compacted name", primary=False, floor=1)
+    from .. import fillextent
+    if fillextent.rule(prog, r13) < 1:
+        raise Broken("no call passing a conditionally filled array together with a count found in parser.c")
+
     r12 = chk.rule("R12-tolerated-codes-share-the-ok-arm", "a code the recovery rules say the parser tolerates after the errors "
                    "behind it were accepted (CIF_NULL_LOOP from creating a loop whose names were all refused as duplicates) has "
                    "its case label in the arm of CIF_OK of the switch on that call's result (shared with C03 R2b)",
@@ -586,3 +600,90 @@ def rewind_rule(prog, rule):
                 rule.ok(key, "a column store follows on every path before scanning resumes")
     return n
 
+
+
+def partial_packet_recovery(prog, rule):
+    """R14: the recovery from CIF_PARTIAL_PACKET ("synthesize unknown values to fill the packet") has to reset every column from
+    the first one that got no value.  The column variable is the one whose non-zero test guards the report; between the
+    report and the first statement that subscripts an array with it, it must not be advanced - the column it holds at
+    the report *is* the first missing one (it is where the next value would have gone)."""
+    n = 0
+    for fn in prog.all_functions():
+        if fn.unit != "parser.c":
+            continue
+        for (b, i, r, c) in fn.calls():
+            if indirect_target(c) != "error_callback" or not c.get("args") or macro_name(c["args"][0]) != "CIF_PARTIAL_PACKET":
+                continue
+            n += 1
+            key = "%s:CIF_PARTIAL_PACKET@L%s" % (fn.name, c.get("l"))
+            # the variable tested against zero on the way to the report
+            cands = []
+
+            def nz(var):
+                def m(cnd):
+                    z = cfgq.zero_test(cnd, lambda e: path(strip(e)) == var)
+                    if z is None:
+                        return None
+                    return "false" if z == "true" else "true"
+                return m
+            for v in fn.locals:
+                if "int" not in v.get("t", "") and "size_t" not in v.get("t", ""):
+                    continue
+                ge = cfgq.guard_edges(fn, nz(v["name"]))
+                if ge and cfgq.must_pass_edge(fn, b.id, ge):
+                    cands.append(v["name"])
+            if len(cands) != 1:
+                rule.info(key, "column variable not identified (%s): no verdict" % cands)
+                continue
+            col = cands[0]
+            def classify(root):
+                """'store' if the root writes col (assignment, increment), 'read' if it only reads it, None otherwise"""
+                reads = False
+                for x in walk_eval(root):
+                    if x.get("k") == "asg" and path(strip(x.get("lhs"))) == col:
+                        return "store", x
+                    if x.get("k") == "un" and x.get("op") in ("pre++", "post++", "pre--", "post--") and path(strip(x.get("e"))) == col:
+                        return "store", x
+                    if x.get("k") == "ref" and path(x) == col:
+                        reads = True
+                return ("read", None) if reads else (None, None)
+            bad = None
+            seen = set()
+            work = [(b.id, i + 1)]
+            n_reads = 0
+            while work and bad is None:
+                bid, start = work.pop()
+                blk = fn.blocks[bid]
+                stop = False
+                for ri in range(start, len(blk.roots)):
+                    kind, node = classify(blk.roots[ri])
+                    if kind == "store":
+                        bad = node
+                        stop = True
+                        break
+                    if kind == "read":
+                        n_reads += 1
+                        stop = True
+                        break
+                if stop:
+                    continue
+                for s2 in blk.succs:
+                    if s2 is not None and s2 not in seen and s2 != fn.exit:
+                        seen.add(s2)
+                        work.append((s2, 0))
+            if bad is None and n_reads == 0:
+                rule.info(key, "`%s` is not used after the report" % col)
+                continue
+            if bad is not None:
+                rule.violation(fn.file, fn.name, bad.get("l"), "partial-packet-recovery-skips-a-column:%s" % fn.name,
+                               "`%s` is modified (`%s`) between the report of CIF_PARTIAL_PACKET and the first statement that reads "
+                               "it: at the report it holds the first column without a value, so the recovery no longer "
+                               "starts there and that column keeps the previous packet's value" % (col, show_(bad)))
+            else:
+                rule.ok(key, "`%s` reaches the filling loop unchanged" % col)
+    return n
+
+
+def show_(n):
+    from ..facts import show
+    return show(n)[:60]
